@@ -22,6 +22,7 @@ import (
 	"google.golang.org/grpc"
 	"google.golang.org/grpc/connectivity"
 	"google.golang.org/grpc/metadata"
+	"google.golang.org/protobuf/encoding/protojson"
 	"google.golang.org/protobuf/proto"
 
 	"github.com/GoogleCloudPlatform/grpc-gcp-go/grpcgcp"
@@ -403,6 +404,11 @@ type sim struct {
 	lastOpts           *grpcgcp.GCPMultiEndpointOptions
 	own                *grpcgcp.GCPMultiEndpointOptions // plan.Alias: the application's one options object
 	master, masterWant []string
+	userOpts           []grpc.DialOption
+	twinCfg            *pb.ApiConfig
+	cfgBad             string // first pool dialled with a configuration that is not the instance's
+	nDialCfgJudged     int
+	nDialCfgUnknown    int
 	cfgHist            []*cfgRec
 	seq                int // harness event sequence (concurrent bursts)
 	parUsed            bool
@@ -444,9 +450,100 @@ func (s *sim) dial(ctx context.Context, target string, dopts ...grpc.DialOption)
 		s.nDialFail++
 		return nil, errors.New("simulated dial failure for " + target)
 	}
+	s.dialConfig(dopts, s.cfgSnap, "")
 	p := &fakePool{s: s, endpoint: target, id: len(s.pools), state: connectivity.Idle, ch: make(chan struct{}), openedCfg: s.curUpd, closedCfg: -1}
 	s.pools = kern.Push(s.pools, p)
 	return p, nil
+}
+
+// dialConfig: the channel-pool configuration a pool is dialled with (C17: the
+// effective configuration equals the supplied one). The library conveys it as
+// the default service config among the dial options; when those carry one
+// naming the grpc_gcp balancer, it must be the configuration this instance
+// was given - at construction and for every pool dialled later. (Dial options
+// without such a service config are not judged.) Runs on the dialling task;
+// a mismatch is recorded and reported by the scheduler side (cfgBad).
+//
+//go:norace
+func (s *sim) dialConfig(dopts []grpc.DialOption, want *pb.ApiConfig, who string) {
+	js, ok := defaultServiceConfigOf(dopts)
+	if !ok || js == "" {
+		s.nDialCfgUnknown++
+		return
+	}
+	var sc struct {
+		LB []map[string]json.RawMessage `json:"loadBalancingConfig"`
+	}
+	if json.Unmarshal([]byte(js), &sc) != nil {
+		s.nDialCfgUnknown++
+		return
+	}
+	for _, e := range sc.LB {
+		raw, ok := e[grpcgcp.Name]
+		if !ok {
+			continue
+		}
+		got := &pb.ApiConfig{}
+		if err := protojson.Unmarshal(raw, got); err != nil {
+			s.nDialCfgUnknown++
+			return
+		}
+		w := want
+		if w == nil {
+			w = &pb.ApiConfig{}
+		}
+		s.nDialCfgJudged++
+		if !proto.Equal(got, w) && s.cfgBad == "" {
+			s.cfgBad = fmt.Sprintf("%sa pool was dialled with the channel-pool configuration %s; this instance was given %s", who, canonJSON(got), canonJSON(w))
+		}
+		return
+	}
+	s.nDialCfgUnknown++
+}
+
+// canonJSON renders a message deterministically (protojson output is not).
+//
+//go:norace
+func canonJSON(m proto.Message) string {
+	b, err := protojson.Marshal(m)
+	if err != nil {
+		return "?"
+	}
+	var v interface{}
+	if json.Unmarshal(b, &v) != nil {
+		return "?"
+	}
+	out, _ := json.Marshal(v)
+	return string(out)
+}
+
+// userDialOpts: the application's own dial options - ONE slice with spare
+// capacity, passed as opts... to every constructor (both instances) and reused
+// by the application afterwards (it appends further options for a channel of
+// its own). A library that appends to the slice it was given shares the array.
+//
+//go:norace
+func (s *sim) userDialOpts() []grpc.DialOption {
+	if s.userOpts == nil {
+		s.userOpts = make([]grpc.DialOption, 0, 8)
+		s.userOpts = append(s.userOpts, grpc.WithUserAgent("app"), grpc.WithAuthority("authority.example"))
+	}
+	return s.userOpts
+}
+
+// reuseDialOpts: after a constructor has returned the application builds the
+// option list of another channel from the same slice.
+//
+//go:norace
+func (s *sim) reuseDialOpts() {
+	if s.userOpts == nil {
+		return
+	}
+	other := append(s.userOpts, grpc.WithDisableServiceConfig(),
+		grpc.WithDefaultServiceConfig(`{"loadBalancingConfig": [{"grpc_gcp":{"channelPool":{"maxSize":9,"minSize":9}}}]}`),
+		grpc.WithUserAgent("another-channel"), grpc.WithAuthority("another.example"), grpc.WithBlock())
+	_ = other
+	s.res.Count("fault:caller_reuses_its_dial_option_slice", 1)
 }
 
 //go:norace
@@ -648,6 +745,9 @@ func Run(t *testing.T, plan *Plan, src *simkit.Source, logOn bool) *simkit.Resul
 
 //go:norace
 func (s *sim) kernelFailure() {
+	if s.cfgBad != "" && !s.stop {
+		s.vio("C17", "pool-dialled-with-foreign-config", "", s.cfgBad)
+	}
 	f := s.k.Fail
 	if f == nil {
 		return
@@ -719,12 +819,15 @@ func (s *sim) run(src *simkit.Source, logOn bool) {
 	var err error
 	c := s.call("New", 1, func() {
 		if s.plan.OldCtor {
-			s.gme, err = grpcgcp.NewGcpMultiEndpoint(s.buildOpts(init))
+			s.gme, err = grpcgcp.NewGcpMultiEndpoint(s.buildOpts(init), s.userDialOpts()...)
 		} else {
-			s.gme, err = grpcgcp.NewGCPMultiEndpoint(s.buildOpts(init))
+			s.gme, err = grpcgcp.NewGCPMultiEndpoint(s.buildOpts(init), s.userDialOpts()...)
 		}
 	})
 	k.Quiesce()
+	if !s.plan.Twin || s.plan.Concurrent {
+		s.reuseDialOpts()
+	}
 	s.masterCheck("NewGCPMultiEndpoint")
 	s.scribbleOpts()
 	s.kernelFailure()
@@ -929,8 +1032,12 @@ var twinEps = []string{"t0:443", "t1:443"}
 //
 //go:norace
 func (s *sim) buildTwin() {
+	// the second instance has a configuration of its own
+	s.twinCfg = &pb.ApiConfig{ChannelPool: &pb.ChannelPoolConfig{MinSize: 5, MaxSize: 7, FallbackToReady: true, BindPickStrategy: pb.ChannelPoolConfig_ROUND_ROBIN},
+		Method: []*pb.MethodConfig{{Name: []string{"/twin/Only"}, Affinity: &pb.AffinityConfig{Command: pb.AffinityConfig_BIND, AffinityKey: "name"}}}}
+	twinSnap := proto.Clone(s.twinCfg).(*pb.ApiConfig)
 	opts := &grpcgcp.GCPMultiEndpointOptions{
-		GRPCgcpConfig: s.cfg,
+		GRPCgcpConfig: s.twinCfg,
 		MultiEndpoints: map[string]*multiendpoint.MultiEndpointOptions{
 			"default": {Endpoints: []string{twinEps[0], twinEps[1]}},
 			"read":    {Endpoints: []string{twinEps[1], twinEps[0]}},
@@ -938,13 +1045,14 @@ func (s *sim) buildTwin() {
 		Default: "default",
 		DialFunc: func(ctx context.Context, target string, dopts ...grpc.DialOption) (vsync.PoolConn, error) {
 			s.k.Yield("dial")
+			s.dialConfig(dopts, twinSnap, "second instance: ")
 			p := &fakePool{s: s, endpoint: target, id: 1000 + len(s.twinPools), state: connectivity.Idle, ch: make(chan struct{}), closedCfg: -1}
 			s.twinPools = kern.Push(s.twinPools, p)
 			return p, nil
 		},
 	}
 	var err error
-	c := s.call("NewTwin", 1, func() { s.twin, err = grpcgcp.NewGCPMultiEndpoint(opts) })
+	c := s.call("NewTwin", 1, func() { s.twin, err = grpcgcp.NewGCPMultiEndpoint(opts, s.userDialOpts()...) })
 	s.k.Quiesce()
 	s.kernelFailure()
 	if s.stop || s.panicked(c, "NewGCPMultiEndpoint") {
@@ -1213,6 +1321,25 @@ func (s *sim) leakCheck(when string) {
 	}
 }
 
+// updStart / updEnd: bookkeeping of a burst update, on its task (closures do
+// not inherit go:norace; harness state is only touched in norace functions).
+//
+//go:norace
+func (s *sim) updStart(rec **cfgRec, idx int) {
+	s.seq++
+	(*rec).startSeq = s.seq
+	s.curUpd = idx
+}
+
+//go:norace
+func (s *sim) updEnd(rec **cfgRec, idx int) {
+	if idx > s.updDone {
+		s.updDone = idx
+	}
+	s.seq++
+	(*rec).doneSeq = s.seq
+}
+
 //go:norace
 func (s *sim) exec(o Op) {
 	switch o.K {
@@ -1232,15 +1359,9 @@ func (s *sim) exec(o Op) {
 			var rec *cfgRec
 			opts := s.buildOpts(sp)
 			c := s.call("Update", group, func() {
-				s.seq++
-				rec.startSeq = s.seq
-				s.curUpd = idx
+				s.updStart(&rec, idx)
 				_ = s.gme.UpdateMultiEndpoints(opts)
-				if idx > s.updDone {
-					s.updDone = idx
-				}
-				s.seq++
-				rec.doneSeq = s.seq
+				s.updEnd(&rec, idx)
 			})
 			s.concCalls = append(s.concCalls, c)
 			s.accept(sp)
@@ -1600,6 +1721,8 @@ func (s *sim) finish() {
 		}
 	}
 	k.Shutdown()
+	s.res.Count("probe:dial_config_judged", s.nDialCfgJudged)
+	s.res.Count("probe:dial_config_not_readable", s.nDialCfgUnknown)
 	s.res.Steps = int(k.Steps())
 	s.res.SimNanos = int64(k.Elapsed())
 	s.res.Fingerprint = k.Fingerprint
